@@ -99,6 +99,18 @@ def run(ctx):
     clearers = sorted({f.qname for f, x in sent_writes if isinstance(x.value, ast.Constant) and x.value.value is None})
     r.check(setters == [sr.qname] and clearers == [lost.qname], "%s#writers(sent)" % BC,
             "`sent` is set in %s and cleared in %s" % (setters, clearers), facts=setters + clearers)
+    # the connection handle says "connected" from the moment an attempt succeeds until the loss is *reported*: it is
+    # set where the attempt's protocol arrives and cleared by the loss handler only.  Clearing it earlier (when a
+    # disconnect is merely requested) makes the client look idle while the old connection still exists: a request made
+    # then starts a second connect loop, the late loss report a third
+    pw = [(f, n) for f, k, n in prog.attr_accesses(ci, "proto", False) if k == "write" and f.name != "__init__"]
+    p_clear = sorted({f.qname for f, n in pw if isinstance(n, ast.Assign) and isinstance(n.value, ast.Constant) and n.value.value is None})
+    p_set = sorted({f.qname for f, n in pw if not (isinstance(n, ast.Assign) and isinstance(n.value, ast.Constant) and n.value.value is None)})
+    conn_ = ctx.func(BC + "._connect")
+    r.check(p_clear == [lost.qname] and bool(p_set) and all(q.startswith(conn_.qname + ".") for q in p_set), "%s#writers(proto)" % BC,
+            "the connection handle is cleared in %s and set in %s; only the loss handler may clear it, only a successful attempt may set it" % (p_clear, p_set),
+            facts=p_set + p_clear, witness="disconnect() on a live connection, then a request before the loss is reported: two concurrent "
+            "connections, every unanswered request re-sent twice although the connection carrying them never dropped")
     init = ctx.func(BC + ".__init__")
     tbl = [x for x in walk_body_shallow(init.body) if isinstance(x, ast.Assign) and self_attr(x.targets[0]) == "requests"]
     ins = [(f, n) for f, k, n in prog.attr_accesses(ci, "requests", False) if k == "mutate" and isinstance(n, ast.Assign)]
